@@ -43,8 +43,9 @@ import (
 //                shuffled insertion order every time; Go randomises each range loop) and once on
 //                the map reduced to the effective annotations.
 // Distinct non-trivial rule (Out.Seen):
-//   C14: hash of the abstract shape of a case: per step (handler, input-class tags, outcome
-//        ok/refused/panic); every generated case contains at least one hostile element.
+//   C14: hash of the abstract shape of a case: per step (handler, input-class tags of the
+//        configuration / annotation values / pod / container, depth of present sub-messages);
+//        every generated case contains at least one hostile element.
 //   C18: hash of (name-relation class, per base key: which forms are present for the target and
 //        how many for other containers, look-alike count, class kind, outcome class); only maps
 //        in which the target has >=2 forms for some key, or an annotation addressed to another
@@ -990,7 +991,7 @@ func vsPlayC14(ctx *vsCtx, cs *vsC14Case, idx int, canaryWant []string) []vsFind
 		if strings.HasPrefix(res.Extra, "cfg") {
 			ctx.Count("call_" + st.Op + "_prepared_memtierd")
 		}
-		shape = append(shape, st.Op+"["+strings.Join(st.Tags, ",")+"]"+oc)
+		shape = append(shape, st.Op+"["+strings.Join(st.Tags, ",")+"]") // not the outcome: which of several refusal reasons a plugin meets first may depend on its map iteration order
 		for _, t := range st.Tags {
 			if strings.HasPrefix(t, "v=") && t != "v=kept" || strings.HasPrefix(t, "cfg=") || strings.HasPrefix(t, "pod=") || strings.HasPrefix(t, "ctr=") {
 				ctx.Count("input_" + t)
